@@ -73,10 +73,10 @@ Section WithCodec.
   Qed.
 
   Lemma step_inv : forall s bs o,
-    Inv s bs -> Forall wf_bulk (hop_bulk o) -> crash_cut_ok o ->
+    Inv s bs -> Forall wf_bulk (hop_bulk o) ->
     exists s' ext, step dec_m s o = Ok s' /\ Inv s' (bs ++ ext) /\ incl ext (hop_bulk o).
   Proof.
-    intros s bs o HI Hwo Hcc.
+    intros s bs o HI Hwo.
     pose proof (inv_disk_form s bs HI) as (tm0 & td0 & Hdisk0 & Htm0).
     destruct HI as (Hwf & Hack & Hsub & Hst).
     destruct o as [b | b k t kd km | b fm cut | b a c | | |]; unfold step.
@@ -144,14 +144,28 @@ Section WithCodec.
     - (* HFaultCrash: the process dies inside the failed unit or its rollback *)
       destruct (s_proc s) as [p |] eqn:Ep.
       + destruct Hst as (Hd & Hod & Hom & Hix).
-        eexists. exists []. split; [reflexivity |]. split; [| apply incl_nil_l].
-        rewrite app_nil_r. unfold Inv, fault_crash. cbn [s_acked s_tried s_proc s_disk].
-        split; auto. split; auto.
-        split; [intros x Hx; apply Hsub in Hx; rewrite app_assoc; apply in_or_app; auto |].
-        rewrite Hd. cbn [docs meta].
-        exists (firstn c (mblock b (off_d p))), (firstn a (dblock b)). split; auto.
-        unfold mblock. apply eof_tail_prefix. fold (mblock b (off_d p)).
-        cbn [crash_cut_ok] in Hcc. rewrite mblock_length in *. exact Hcc.
+        inversion Hwo as [| ? ? Hb _]; subst.
+        unfold fault_crash. rewrite Hd, Hod. cbn [docs meta].
+        destruct (Nat.lt_ge_cases c (length (mblock b (length (dfile bs))))) as [Hlt | Hge].
+        * (* the meta block is incomplete *)
+          eexists. exists []. split; [reflexivity |]. split; [| apply incl_nil_l].
+          rewrite app_nil_r. unfold Inv. cbn [s_acked s_tried s_proc s_disk].
+          split; auto. split; auto.
+          split; [intros x Hx; apply Hsub in Hx; rewrite app_assoc; apply in_or_app; auto |].
+          eexists (firstn c (mblock b (length (dfile bs)))), _.
+          split; [reflexivity |]. unfold mblock. apply eof_tail_prefix. exact Hlt.
+        * (* both blocks are complete and durable although the unit failed *)
+          assert (Hc0 : (c =? 0) = false).
+          { apply Nat.eqb_neq. pose proof (mblock_length_pos b (length (dfile bs))). lia. }
+          rewrite Hc0, firstn_all, (firstn_ge _ c) by auto.
+          eexists. exists [b]. split; [reflexivity |]. split; [| apply incl_refl].
+          unfold Inv. cbn [s_acked s_tried s_proc s_disk].
+          split; [apply Forall_app; auto |].
+          split; [apply incl_appl; auto |].
+          split.
+          { intros x Hx. apply in_app_or in Hx. rewrite app_assoc. apply in_or_app.
+            destruct Hx as [Hx | Hx]; auto. }
+          exists [], []. rewrite !app_nil_r, dfile_snoc, mfile_snoc. split; auto using eof_tail_nil.
       + exists s, []. rewrite app_nil_r. split; auto. split; [| apply incl_nil_l].
         unfold Inv. rewrite Ep. auto.
     - (* HPower *)
@@ -175,15 +189,14 @@ Section WithCodec.
   Qed.
 
   Lemma run_inv : forall h s bs,
-    Inv s bs -> Forall wf_bulk (hist_bulks h) -> Forall crash_cut_ok h ->
+    Inv s bs -> Forall wf_bulk (hist_bulks h) ->
     exists s' ext, run_from dec_m s h = Ok s' /\ Inv s' (bs ++ ext) /\ incl ext (hist_bulks h).
   Proof.
-    induction h as [| o r IH]; intros s bs HI Hwf Hff.
+    induction h as [| o r IH]; intros s bs HI Hwf.
     - exists s, []. rewrite app_nil_r. cbn. auto using incl_nil_l.
     - cbn [hist_bulks flat_map] in Hwf. apply Forall_app in Hwf. destruct Hwf as (Hwo & Hwr).
-      inversion Hff as [| ? ? Hfo Hfr]; subst.
-      destruct (step_inv s bs o HI Hwo Hfo) as (s1 & e1 & Hs & HI1 & He1).
-      destruct (IH s1 (bs ++ e1) HI1 Hwr Hfr) as (s2 & e2 & Hr & HI2 & He2).
+      destruct (step_inv s bs o HI Hwo) as (s1 & e1 & Hs & HI1 & He1).
+      destruct (IH s1 (bs ++ e1) HI1 Hwr) as (s2 & e2 & Hr & HI2 & He2).
       exists s2, (e1 ++ e2). cbn [run_from]. rewrite Hs. split; auto.
       rewrite app_assoc. split; auto.
       cbn [hist_bulks flat_map]. apply incl_app; [apply incl_appl | apply incl_appr]; auto.
